@@ -8,14 +8,14 @@ BASE = {
     # initial state
     "init": {"new": 5, "foreign": 3, "foreign_garbage": 2, "foreign_hole": 0.25, "foreign_noncompact": 0.4,
              "capture": 0.03},
-    "n_choices": [14, 14, 1, 2, 3, 5, 9],
+    "n_choices": [14, 14, 14, 1, 2, 3, 5, 9, 16, 20],  # the library creates 14; other software, anything
     "files": [1, 1, 1, 2],
     # sessions
     "session": {"w": 10, "fresh": 1.5, "ro": 0.6, "out": 0.3, "armed_out": 0.2, "stale": 0.3},
     "end": {"exit": 8, "exit_exc": 1, "kill": 1},
     "ops": {"add": 10, "remove": 6, "replace": 4, "set": 3, "reput": 1, "edit_restore": 1, "read_obs": 1, "read_w": 1,
             "read_twice": 0.3, "same_size_switch": 0.3, "reject_some": 0.5, "enospc": 0.0,
-            "reject_all": 0.0, "mode_matrix": 0.0, "decode_twice": 0.3, "copy": 0.2, "odd_size": 0.15},
+            "reject_all": 0.0, "mode_matrix": 0.0, "decode_twice": 0.3, "copy": 0.2, "odd_size": 0.15, "replace_near": 0.4},
     "between": {"scribble": 0.0, "read_obs": 0.3, "clobber": 0.05, "open_bad": 0.03, "copy": 0.1, "sig_flip": 0.02,
                 "truncated_decode": 0.0, "open_near": 0.02, "enospc_create": 0.01},
     "kinds": gen.KINDS,
@@ -41,7 +41,7 @@ def profile(prop):
     elif prop == "C04":
         p["init"].update(foreign=4, foreign_garbage=3)
         p["opaque"] = 0.8
-        p["ops"].update(replace=7, set=4, remove=8)
+        p["ops"].update(replace=7, set=4, remove=8, replace_near=2)
     elif prop == "C01":
         p["ops"].update(reput=3, replace=5, set=4, edit_restore=4, same_size_switch=2)
         p["big"] = 0.05
@@ -62,12 +62,12 @@ def profile(prop):
                      "capture": 0.03}
     elif prop == "C06":
         p["init"].update(foreign=4, foreign_garbage=4, capture=0.12)
-        p["ops"].update(reput=2, edit_restore=2)
+        p["ops"].update(reput=2, edit_restore=2, odd_size=1.5)
         p["huge_cell"] = 0.06
     elif prop == "C07":
         p["ops"].update(reject_all=5, add=8, remove=4, reject_some=0, edit_restore=3)
         p["session"].update(ro=1.5, stale=0.8)
-        p["n_choices"] = [14, 14, 2, 3, 5, 9]
+        p["n_choices"] = [14, 14, 2, 3, 5, 9, 16, 20]
         p["init"].update(foreign_hole=0.6)
         p["dup_add"] = 0.15
         p["absent_rm"] = 0.12
@@ -210,8 +210,8 @@ class Gen:
         else:
             n = rng.choice(self.p["n_choices"])
             k = rng.randint(0, min(n, 5))
-            if n == 14 and rng.random() < 0.25:
-                k = rng.randint(9, 14)  # a crowded 14-slot table (the library's own nine types cannot fill it)
+            if n >= 14 and rng.random() < (0.25 if n == 14 else 0.6):
+                k = rng.randint(9, min(n, 16))  # a crowded table (the library's own nine types cannot fill 14 slots)
             slots = []
             used = set()
             for _ in range(k):
@@ -246,6 +246,10 @@ class Gen:
             if how == "foreign_noncompact":
                 layout = rng.choice(("reversed", "gaps"))
             extra = {}
+            if rng.random() < 0.2:
+                extra["version"] = rng.choice((0, 2, 2, 3, 7, 2**31, 2**32 - 1))  # nobody checks the version; nobody may change it
+            if rng.random() < 0.15:
+                extra["unused_fmt"] = rng.randint(1, 7)
             if rng.random() < 0.3:
                 extra["hdr"] = [rng.choice((rng.randint(0, 2**31 - 1), -rng.randint(1, 2**31 - 1), rng.randint(10**9, 17 * 10**8)))
                                 for _ in range(3)]
@@ -253,6 +257,8 @@ class Gen:
                 # a comment with a byte windows-1252 does not define, anywhere in the table
                 extra["badtext"] = {"slot": rng.randrange(max(n, len(slots))), "pos": rng.randint(0, 12),
                                     "byte": rng.randrange(5)}
+            if "badtext" not in extra and rng.random() < self.p.get("fullcomment", 0.05):
+                extra["fullcomment"] = {"slot": rng.randrange(max(n, len(slots))), "text": gen.text(rng, 257, "max")}
             self.emit(op="foreign", f=f, n=n, slots=slots, layout=layout,
                       garbage=rng.randint(1, 10**6) if how == "foreign_garbage" or rng.random() < 0.15 else None,
                       **extra)
@@ -359,6 +365,9 @@ class Gen:
             self.emit(op="decode_twice", f=f, poisons=ps)
         elif k == "copy":
             self.copy_op(f)
+        elif k == "replace_near":
+            self.emit(op="replace_near", f=f, k=rng.randint(0, 99), how=rng.choice(("sample", "sample", "channels")),
+                      via=rng.choice(("replace", "set")), stamp=rng.random() < 0.5)
         elif k == "odd_size":
             kinds = [x for x in gen.SEGMENTED if x in self.p["kinds"] and TYPE_CODE[x] not in self.present[f]]
             if kinds:
@@ -408,7 +417,7 @@ class Gen:
                 r = rng.random()
                 if r < 0.5 and free:
                     g = free[0]
-                    self.emit(op="place", f=g, kind=rng.choice(("junk", "empty", "tdf", "short", "sig_only", "almost_sig")),
+                    self.emit(op="place", f=g, kind=rng.choice(("junk", "empty", "tdf", "short", "sig_only", "almost_sig", "dir")),
                               len=rng.randint(1, 300))
                     self.exists[g] = "junk"
                     targets.append(g)
@@ -548,7 +557,8 @@ class Gen:
                 if end == "exit":
                     self.emit(op="exit", f=f)
                 elif end == "exit_exc":
-                    self.emit(op="exit_exc", f=f)
+                    self.emit(op="exit_exc", f=f, exc=rng.choice(("RuntimeError", "RuntimeError", "KeyboardInterrupt",
+                                                                  "SystemExit", "GeneratorExit")))
                 else:
                     self.emit(op="kill_reopen", f=f)
                 if kind == "w" and chdir_back_after_end:
